@@ -54,6 +54,10 @@ EXPLANATION += (
     'parameter.'
 )
 
+EXPLANATION += (
+    ' Round 5: tmp_dir and the other settings are forwarded at every call (R-FWD/parameter-forwarded; two documented exceptions).'
+)
+
 RULE_TEXT = (
     "one obligation per (CLI runner, input key), per write effect root, "
     "per temp acquisition and exit-set mode, per listing, per worker "
@@ -100,6 +104,10 @@ def check(ctx):
     check_fresh_names(ctx, pa)
     check_own_listing(ctx, pa)
     check_worker_outputs(ctx, pa)
+    # settings this property depends on are handed down every call
+    # chain, never left to a callee's default (sa/rules/forwarding.py)
+    from ..rules.forwarding import check_forwarding
+    check_forwarding(ctx, {'tmp_dir', 'results_output_path', 'buffer_dir', 'output_path'})
 
 
 # ----------------------------------------------------------------------
